@@ -114,12 +114,22 @@ structure Impl where
   replaceGuard : Bool
   /-- first index tried (`itertools.count(start=…)`) -/
   start : Nat
+  /-- every path through `__exit__` assigns `self.temp = None` (the writer object is back in its
+  initial state after each use) -/
+  resetTemp : Bool
+  /-- the "already open" clean-up of `make_tempfile` (`self.temp.close(); Path(self.temp.name).unlink()`)
+  ignores a missing file -/
+  staleMissingOk : Bool
   deriving DecidableEq, Repr
 
-/-- The code as it was before the fix (srctools 2.5.0). -/
-def implV0 : Impl := { exclusive := true, closeGuard := false, replaceGuard := false, start := 1 }
+/-- The code as it was before the fix (srctools 2.5.0; `self.temp = None` is skipped when close raises). -/
+def implV0 : Impl :=
+  { exclusive := true, closeGuard := false, replaceGuard := false, start := 1, resetTemp := false,
+    staleMissingOk := false }
 /-- The code after `fix: AtomicWriter removes the temp file when close/replace fails`. -/
-def implV1 : Impl := { exclusive := true, closeGuard := true, replaceGuard := true, start := 1 }
+def implV1 : Impl :=
+  { exclusive := true, closeGuard := true, replaceGuard := true, start := 1, resetTemp := true,
+    staleMissingOk := false }
 
 structure Cfg where
   impl : Impl
@@ -143,6 +153,14 @@ inductive PC
   | unlink (n : Nat) (out : Outcome) (swallowAll : Bool)
   | done (out : Outcome)
   deriving DecidableEq, Repr
+
+/-- The temp file a writer currently holds. -/
+def PC.owns : PC → Option Nat
+  | .body n _ _ => some n
+  | .close n _ => some n
+  | .replace n => some n
+  | .unlink n _ _ => some n
+  | _ => none
 
 /-- Where the body continues after `k` actions. -/
 def afterOp (cfg : Cfg) (n k pos : Nat) : PC :=
@@ -247,6 +265,108 @@ A crash point is a prefix of the schedule. -/
 def run2 (c1 c2 : Cfg) : List (Bool × Fault) → Sys → Sys
   | [], s => s
   | (w, f) :: rest, s => run2 c1 c2 rest (step2 c1 c2 w f s)
+
+/-! ## Histories: writer OBJECTS that are used several times
+
+`AtomicWriter` "can be repeated": one object may be entered again after it exited.  What the code
+keeps on the object between uses is `self.temp` (the file object, whose `.name` is the temp path; the
+counter is a local of `make_tempfile`, `_temp_name` is overwritten before it is read).
+`make_tempfile` starts with `if self.temp is not None: self.temp.close(); Path(self.temp.name).unlink()`.
+`OState.cur = some m` means `self.temp` is a file object named `tmp_m`. -/
+
+structure Use where
+  script : List BOp
+  bodyExc : Option Nat
+  deriving Repr
+
+structure OCfg where
+  impl : Impl
+  dest : Name
+  uses : List Use
+  deriving Repr
+
+/-- The single-use configuration of use number `i`. -/
+def OCfg.cfgAt (c : OCfg) (i : Nat) : Cfg :=
+  match c.uses[i]? with
+  | some u => ⟨c.impl, c.dest, u.script, u.bodyExc⟩
+  | none => ⟨c.impl, c.dest, [], none⟩
+
+inductive OPC
+  | idle                 -- between uses (before `__enter__` of use number `use`)
+  | run (pc : PC)        -- inside a use
+  deriving DecidableEq, Repr
+
+structure OState where
+  /-- index of the current / next use -/
+  use : Nat
+  /-- `self.temp`: `none` = `None`, `some m` = a file object (open or closed) named `tmp_m` -/
+  cur : Option Nat
+  opc : OPC
+  /-- outcomes of the finished uses, most recent first -/
+  outs : List Outcome
+  deriving Repr
+
+def OState.init : OState := ⟨0, none, .idle, []⟩
+
+def endUse (o : OState) (cur : Option Nat) (out : Outcome) : OState :=
+  ⟨o.use + 1, cur, .idle, out :: o.outs⟩
+
+/-- `self.temp` after a transition `pc → pc'` of the single-use machine: assigned when the exclusive
+create succeeds, reset by `__exit__` (if the code does that on every path) before the close. -/
+def curAfter (impl : Impl) (cur : Option Nat) (pc pc' : PC) : Option Nat :=
+  match pc with
+  | .create n => if pc'.owns = some n then some n else cur
+  | .close _ _ => if impl.resetTemp then none else cur
+  | _ => cur
+
+/-- Book-keeping after a step of the single-use machine from `pc`. -/
+def afterStep (c : OCfg) (o : OState) (pc : PC) (r : FS × PC × Option Event) : FS × OState × Option Event :=
+  match r.2.1 with
+  | .done out => (r.1, endUse o (curAfter c.impl o.cur pc (.done out)) out, r.2.2)
+  | pc' => (r.1, ⟨o.use, curAfter c.impl o.cur pc pc', .run pc', o.outs⟩, r.2.2)
+
+/-- One file-system operation of a writer object. -/
+def stepO (c : OCfg) (f : Fault) (fs : FS) (o : OState) : FS × OState × Option Event :=
+  match o.opc with
+  | .idle =>
+    if o.use < c.uses.length then
+      match o.cur with
+      | some m =>
+        -- stale file object: `self.temp.close()` (already closed: nothing) ; `Path(self.temp.name).unlink()`
+        if f = .none then
+          match get fs (.tmp m) with
+          | some _ => (del fs (.tmp m), ⟨o.use, o.cur, .run .mkdir, o.outs⟩, some ⟨.unlink m, .ok⟩)
+          | none =>
+            if c.impl.staleMissingOk then (fs, ⟨o.use, o.cur, .run .mkdir, o.outs⟩, some ⟨.unlink m, .enoent⟩)
+            else (fs, endUse o o.cur .raisedOS, some ⟨.unlink m, .enoent⟩)
+        else if f = .enoent && c.impl.staleMissingOk then
+          (fs, ⟨o.use, o.cur, .run .mkdir, o.outs⟩, some ⟨.unlink m, .enoent⟩)
+        else (fs, endUse o o.cur .raisedOS, some ⟨.unlink m, f.res⟩)
+      | none => afterStep c o .mkdir (step (c.cfgAt o.use) f fs .mkdir)
+    else (fs, o, none)
+  | .run pc => afterStep c o pc (step (c.cfgAt o.use) f fs pc)
+
+structure SysO where
+  fs : FS
+  o1 : OState
+  o2 : OState
+  trace : List (Bool × Event)
+  deriving Repr
+
+def SysO.init (fs : FS) : SysO := ⟨fs, .init, .init, []⟩
+
+def stepO2 (c1 c2 : OCfg) (who : Bool) (f : Fault) (s : SysO) : SysO :=
+  if who then
+    let r := stepO c2 f s.fs s.o2
+    ⟨r.1, s.o1, r.2.1, match r.2.2 with | some e => (true, e) :: s.trace | none => s.trace⟩
+  else
+    let r := stepO c1 f s.fs s.o1
+    ⟨r.1, r.2.1, s.o2, match r.2.2 with | some e => (false, e) :: s.trace | none => s.trace⟩
+
+/-- Run a schedule over two writer objects (each with its list of uses). -/
+def runO2 (c1 c2 : OCfg) : List (Bool × Fault) → SysO → SysO
+  | [], s => s
+  | (w, f) :: rest, s => runO2 c1 c2 rest (stepO2 c1 c2 w f s)
 
 end C12
 
